@@ -17,7 +17,7 @@ m = {
     },
     'engines': [
         {'name': 'eppfacts', 'path': 'tool/eppfacts.cc', 'serves_properties': sorted(T.CHECKS), 'kind_free_text': 'clang 14 libTooling fact extractor: resolved AST + clang::CFG of every template instantiation, class layouts, R-INIT verdicts'},
-        {'name': 'eppsa', 'path': 'eppsa/', 'serves_properties': sorted(T.CHECKS), 'kind_free_text': 'python rule engine over the fact base: lockset, dominance, typestate, formula extraction, use-after-move, commit-point rules with frozen instance tables'},
+        {'name': 'eppsa', 'path': 'eppsa/', 'serves_properties': sorted(T.CHECKS), 'kind_free_text': 'python rule engine over the fact base: lockset, dominance, typestate, formula extraction, value numbering, use-after-move, commit-point rules with frozen instance tables; loader-level normalisations (forwarder collapse, short-circuit edge threading, inlining of closures handed to run-under-lock helpers) so that rules anchored in a function judge its body wherever it was moved'},
     ],
     'checks': [],
     'not_applicable': [],
